@@ -328,6 +328,8 @@ def r5(prog, res):
 
 
 def run(prog, res, tier):
+    from rules import c13 as _c13
+    _c13.r3_clear_resets_max(prog, res, rule="R6.cleared_manager_is_recognised_empty")
     r1(prog, res)
     r2(prog, res)
     r3(prog, res)
